@@ -32,6 +32,12 @@
 #include <sanitizer/msan_interface.h>
 #endif
 
+#ifdef X_WRAP_ALLOC
+extern int x_alloc_active;
+#include <unistd.h>
+#include <sys/wait.h>
+#endif
+
 #define MAXBUF 8192
 static struct { unsigned char* p; size_t n; int used; } B[MAXBUF];
 
@@ -73,8 +79,52 @@ int main(void){
 			char* fn=tok(&s); uint64_t a[14]={0}; int n=0; char* t;
 			fn12 f=(fn12)sym(fn);
 			while((t=tok(&s))&&n<14) a[n++]=parse_arg(t);
-			uint64_t r=f(a[0],a[1],a[2],a[3],a[4],a[5],a[6],a[7],a[8],a[9],a[10],a[11],a[12],a[13]);
+			uint64_t r;
+#ifdef X_WRAP_ALLOC
+			if (strncmp(fn, "x_alloc_", 8) != 0) x_alloc_active = 1;
+#endif
+			r=f(a[0],a[1],a[2],a[3],a[4],a[5],a[6],a[7],a[8],a[9],a[10],a[11],a[12],a[13]);
+#ifdef X_WRAP_ALLOC
+			x_alloc_active = 0;
+#endif
+#ifdef X_VALGRIND
+			VALGRIND_MAKE_MEM_DEFINED(&r, sizeof(r));
+#endif
 			printf("r %llx\n",(unsigned long long)r);
+#ifdef X_WRAP_ALLOC
+		} else if(!strcmp(c,"FC")){
+			/* fork twin: the child runs the call with free-recording and reports "r <ret> <hexlog>" */
+			extern size_t x_alloc_record(size_t), x_alloc_loglen(void), x_alloc_log(unsigned char*, size_t), x_alloc_reset(void);
+			char* fn=tok(&s); uint64_t a[14]={0}; int n=0; char* t; int pfd[2]; pid_t pid;
+			fn12 f=(fn12)sym(fn);
+			while((t=tok(&s))&&n<14) a[n++]=parse_arg(t);
+			fflush(stdout);
+			if (pipe(pfd)) die("pipe");
+			pid = fork();
+			if (pid == 0)
+			{
+				uint64_t r; size_t ln, i; unsigned char* lg; FILE* o = fdopen(pfd[1], "w");
+				static const char hx[]="0123456789abcdef";
+				close(pfd[0]);
+				x_alloc_reset(); x_alloc_record(1); x_alloc_active = 1;
+				r=f(a[0],a[1],a[2],a[3],a[4],a[5],a[6],a[7],a[8],a[9],a[10],a[11],a[12],a[13]);
+				x_alloc_active = 0;
+				ln = x_alloc_loglen(); lg = (unsigned char*)malloc(ln ? ln : 1); x_alloc_log(lg, ln);
+				fprintf(o, "r %llx ", (unsigned long long)r);
+				for (i = 0; i < ln; ++i) { fputc(hx[lg[i] >> 4], o); fputc(hx[lg[i] & 15], o); }
+				fputc('\n', o); fflush(o);
+				_exit(0);
+			}
+			else
+			{
+				char buf[65536]; ssize_t k; int status;
+				close(pfd[1]);
+				while ((k = read(pfd[0], buf, sizeof(buf))) > 0) fwrite(buf, 1, (size_t)k, stdout);
+				close(pfd[0]);
+				waitpid(pid, &status, 0);
+				if (!WIFEXITED(status) || WEXITSTATUS(status)) printf("err child %d\n", status);
+			}
+#endif
 		} else if(!strcmp(c,"A")){
 			long id=atol(tok(&s)); size_t n=strtoull(tok(&s),0,10); char* f=tok(&s);
 			if(id<0||id>=MAXBUF) die("badid");
@@ -123,6 +173,12 @@ int main(void){
 			if(c[1]=='U') __msan_poison(B[id].p+off,n); else __msan_unpoison(B[id].p+off,n);
 #endif
 			printf("ok\n");
+		} else if(!strcmp(c,"VE")){
+#ifdef X_VALGRIND
+			printf("r %llx\n",(unsigned long long)VALGRIND_COUNT_ERRORS);
+#else
+			printf("r 0\n");
+#endif
 		} else if(!strcmp(c,"I")){
 			int fast=0, nd=0;
 #ifdef SAFE_FAST
